@@ -14,6 +14,22 @@ enum Case {
     Pair { a: u64, b: u64 },
     /// full binary tree of depth 3: 8 f64 leaves, 7 operators (0 +, 1 -, 2 *, 3 /)
     Chain { leaves: Vec<u64>, ops: Vec<u8> },
+    /// other public entry points (Display with and without precision, Debug, Default, abs/min/max, conversions) of `vals`, then the
+    /// full pair oracle on (a, b): whatever those calls leave behind in the x87 unit must not change later arithmetic
+    Fmt { vals: Vec<u64>, a: u64, b: u64 },
+    /// in-place updates between comparisons of the same variables: `while acc < limit { acc += step }` (trip count), a running maximum
+    /// over `vals`, and `a < b; a += c; a < b`
+    InPlace { start: u64, step: u64, limit: u64, vals: Vec<u64> },
+}
+
+/// (control word, top-of-stack field of the status word) of the x87 unit on this thread
+fn x87_state() -> (u16, u16) {
+    let mut cw: u16 = 0;
+    let mut sw: u16 = 0;
+    unsafe {
+        core::arch::asm!("fnstcw word ptr [{0}]", "fnstsw word ptr [{1}]", in(reg) &mut cw, in(reg) &mut sw, options(nostack));
+    }
+    (cw, (sw >> 11) & 7)
 }
 
 fn lib_bytes(x: f80) -> [u8; 10] {
@@ -202,11 +218,107 @@ fn chain(leaves: &[u64], ops: &[u8]) -> CaseResult {
     Ok(st)
 }
 
+fn fmt_then_pair(vals: &[u64], a: u64, b: u64) -> CaseResult {
+    use std::fmt::Write;
+    let mut sink = String::new();
+    for (i, &v) in vals.iter().enumerate() {
+        let x = f80::from(f64::from_bits(v));
+        match i % 7 {
+            0 => write!(sink, "{}", x).unwrap(),
+            1 => write!(sink, "{:?}", x).unwrap(),
+            2 => write!(sink, "{:.3}", x).unwrap(),
+            3 => write!(sink, "{:12.0} {:+}", x, x).unwrap(),
+            4 => write!(sink, "{:#?} {}", x, f80::default()).unwrap(),
+            5 => write!(sink, "{}", f64::from(x.abs().min(f80::from(1e19)).max(-x))).unwrap(),
+            _ => write!(sink, "{:e}", f64::from(x)).unwrap(),
+        }
+        sink.clear();
+    }
+    let mut st = pair(a, b)?;
+    st.label("arithmetic-after-formatting-and-conversions");
+    Ok(st)
+}
+
+fn in_place(start: u64, step: u64, limit: u64, vals: &[u64]) -> CaseResult {
+    let mut st = CaseStats::default();
+    let (s0, d, l) = (f64::from_bits(start), f64::from_bits(step), f64::from_bits(limit));
+    // (1) trip count of an accumulation loop; the comparison always reads the same two variables
+    let (mut acc, step80, lim80) = (f80::from(s0), f80::from(d), f80::from(l));
+    let (mut racc, rstep, rlim) = (F::from_f64(s0), F::from_f64(d), F::from_f64(l));
+    let (mut trips, mut rtrips) = (0u32, 0u32);
+    while acc < lim80 && trips < 40 {
+        acc += step80;
+        trips += 1;
+    }
+    while racc.cmp(rlim) == Some(Ordering::Less) && rtrips < 40 {
+        racc = racc.add(rstep).0;
+        rtrips += 1;
+    }
+    vensure!(trips == rtrips, "lt", "`while acc < limit {{ acc += step }}` from {:e} by {:e} up to {:e} ran {} times, IEEE arithmetic and order give {}", s0, d, l, trips, rtrips);
+    if racc.encode().is_some() {
+        same("add", "accumulator after the loop", acc, racc)?;
+    }
+    // (2) running maximum / minimum with the comparison operators
+    if !vals.is_empty() {
+        let (mut best, mut rbest) = (f80::from(f64::from_bits(vals[0])), F::from_f64(f64::from_bits(vals[0])));
+        let (mut low, mut rlow) = (best, rbest);
+        for &v in &vals[1..] {
+            let (x, rx) = (f80::from(f64::from_bits(v)), F::from_f64(f64::from_bits(v)));
+            if x > best {
+                best = x;
+            }
+            if rx.cmp(rbest) == Some(Ordering::Greater) {
+                rbest = rx;
+            }
+            if x <= low {
+                low = x;
+            }
+            if matches!(rx.cmp(rlow), Some(Ordering::Less) | Some(Ordering::Equal)) {
+                rlow = rx;
+            }
+        }
+        vensure!(F::decode(&lib_bytes(best)).cmp(rbest) == rbest.cmp(rbest), "gt", "running maximum of {:x?} by `if x > best {{ best = x }}` gives {}, IEEE order gives {:?}", vals, show(&lib_bytes(best)), rbest);
+        vensure!(F::decode(&lib_bytes(low)).cmp(rlow) == rlow.cmp(rlow), "le", "running minimum of {:x?} by `if x <= low {{ low = x }}` gives {}, IEEE order gives {:?}", vals, show(&lib_bytes(low)), rlow);
+        if !rbest.is_nan() {
+            vensure!(F::decode(&lib_bytes(best)).cmp(rbest) == Some(Ordering::Equal), "gt", "running maximum of {:x?} gives {}, expected {:?}", vals, show(&lib_bytes(best)), rbest);
+        }
+        if !rlow.is_nan() {
+            vensure!(F::decode(&lib_bytes(low)).cmp(rlow) == Some(Ordering::Equal), "le", "running minimum of {:x?} gives {}, expected {:?}", vals, show(&lib_bytes(low)), rlow);
+        }
+    }
+    // (3) the same comparison before and after one operand changed in place
+    let (mut a, b, c) = (f80::from(s0), f80::from(l), f80::from(d));
+    let (ra, rb, rc) = (F::from_f64(s0), F::from_f64(l), F::from_f64(d));
+    let first = a < b;
+    a += c;
+    let second = a < b;
+    let eq_after = a == b;
+    let ra2 = ra.add(rc).0;
+    vensure!(first == (ra.cmp(rb) == Some(Ordering::Less)), "lt", "{:e} < {:e} is {}", s0, l, first);
+    vensure!(second == (ra2.cmp(rb) == Some(Ordering::Less)), "lt", "after `a += {:e}` (a was {:e}) the comparison a < {:e} is {}, IEEE says {}", d, s0, l, second, !second);
+    vensure!(eq_after == (ra2.cmp(rb) == Some(Ordering::Equal)), "eq", "after `a += {:e}` (a was {:e}) a == {:e} is {}", d, s0, l, eq_after);
+    #[allow(clippy::eq_op)]
+    {
+        vensure!(f80::default() == f80::from(0.0), "eq", "f80::default() == f80::from(0.0) is false");
+    }
+    st.nontrivial = trips > 0;
+    st.label("comparisons-after-in-place-updates");
+    Ok(st)
+}
+
 fn run_case(c: &Case) -> CaseResult {
-    match c {
+    let before = x87_state();
+    let r = match c {
         Case::Pair { a, b } => pair(*a, *b),
         Case::Chain { leaves, ops } => chain(leaves, ops),
-    }
+        Case::Fmt { vals, a, b } => fmt_then_pair(vals, *a, *b),
+        Case::InPlace { start, step, limit, vals } => in_place(*start, *step, *limit, vals),
+    };
+    let after = x87_state();
+    let st = r?;
+    vensure!(after.0 == before.0, "x87-state/control-word", "the x87 control word changed from {:#06x} to {:#06x} during {:?}: later arithmetic on this thread rounds differently", before.0, after.0, c);
+    vensure!(after.1 == before.1, "x87-state/stack", "the x87 register stack pointer moved from {} to {} during {:?}: a register was leaked or popped", before.1, after.1, c);
+    Ok(st)
 }
 
 fn boundary_set() -> Vec<u64> {
@@ -259,7 +371,7 @@ fn main() {
         "Cases: (a) every ordered pair from a boundary set of ~170 f64 bit patterns (signed zeros, min/max subnormals, powers of two \
          2^k and their neighbours for k in {-1074..1023}, all-ones and alternating significands, 1/3, 0.1, huge/tiny, infinities, quiet \
          and signalling-pattern NaNs), (b) random bit patterns, (c) expression trees of depth 3 over 8 f64 leaves whose inner operands \
-         carry full 64-bit significands. For each pair: f64->f80 exact (raw bytes), f80->f64 identity, neg, +,-,*,/ and the assigning \
+         carry full 64-bit significands, (d) the pair oracle run right after the other public entry points (Display with and without precision, Debug, Default, abs/min/max, conversions) were called on 1..7 values incl. NaN, infinities and magnitudes beyond 2^63, (e) comparisons of the same variables before and after in-place updates (trip count of `while acc < limit { acc += step }`, running maximum/minimum, a < b after a += c) against the reference order. After every case the x87 control word and register-stack pointer of the thread must be what they were before it. For each pair: f64->f80 exact (raw bytes), f80->f64 identity, neg, +,-,*,/ and the assigning \
          forms must equal the software reference (exact result via 256-bit alignment / 128-bit product / long division with sticky bit, \
          round to nearest even at 64 bits, IEEE rules for zeros, infinities, invalid operations) bit for bit through the raw-bytes hook; \
          f80->f64 of every result must be the single correct rounding; <,<=,>,>=,partial_cmp,==,!= must follow the IEEE order of the \
@@ -295,6 +407,10 @@ fn main() {
     ctx.exhaustive("boundary-pairs", "f80-case", &format!("all {}x{} ordered pairs of the boundary set", n, n), true, pairs, run_case);
     ctx.prop_split("random-pairs", "f80-case", ctx.n(50_000, 40_000_000), ctx.parts(), (leaf(), leaf()).prop_map(|(a, b)| Case::Pair { a, b }).boxed(), run_case);
     ctx.prop_split("chains", "f80-case", ctx.n(20_000, 12_000_000), ctx.parts(), (prop::collection::vec(leaf(), 8), prop::collection::vec(0u8..4, 7)).prop_map(|(leaves, ops)| Case::Chain { leaves, ops }).boxed(), run_case);
+    let special = || prop_oneof![3 => leaf(), 1 => Just(f64::NAN.to_bits()), 1 => Just(f64::INFINITY.to_bits()), 1 => Just(f64::NEG_INFINITY.to_bits()), 1 => Just(1e19f64.to_bits()), 1 => Just((-9.3e18f64).to_bits()), 1 => Just(9223372036854775808.0f64.to_bits()), 1 => Just(0f64.to_bits()), 1 => Just(1e-320f64.to_bits())];
+    ctx.prop_split("arithmetic-after-formatting", "f80-case", ctx.n(20_000, 6_000_000), ctx.parts(), (prop::collection::vec(special(), 1..8), leaf(), leaf()).prop_map(|(vals, a, b)| Case::Fmt { vals, a, b }).boxed(), run_case);
+    let small = || prop_oneof![4 => (-20.0f64..20.0).prop_map(|x| x.to_bits()), 2 => (-3i32..=3).prop_map(|k| (k as f64).to_bits()), 1 => (0.01f64..0.6).prop_map(|x| x.to_bits()), 1 => leaf()];
+    ctx.prop_split("comparisons-after-in-place-updates", "f80-case", ctx.n(20_000, 6_000_000), ctx.parts(), (small(), small(), small(), prop::collection::vec(prop_oneof![3 => small(), 1 => leaf()], 0..9)).prop_map(|(start, step, limit, vals)| Case::InPlace { start, step, limit, vals }).boxed(), run_case);
     let _ = SplitMix(0);
     ctx.finish();
 }
